@@ -142,6 +142,14 @@ pub fn build_writer<'c, 's, W: Write>(
 	}
 }
 
+/// Let go of a writer whose sink may be broken. In debug builds its `Drop` panics on purpose when the final flush fails
+/// again; that panic is not the monitored code's verdict (the failing call's Result was), and forgetting the writer
+/// instead would leak its buffers and codec state on every injected fault (gigabytes over a thorough run).
+pub fn discard_writer<W: Write>(w: Writer<'_, '_, W>) {
+	let _ = std::panic::catch_unwind(std::panic::AssertUnwindSafe(move || drop(w)));
+	let _ = crate::run::take_last_panic();
+}
+
 /// write a whole file with the crate; every op must succeed
 pub fn write_file(schema: &Schema, rs: &RSchema, vals: &[Val], ops: &[Op], wc: &WriteCfg, pres: &Pres) -> Result<Vec<u8>, String> {
 	let mut cfg = SerializerConfig::new(schema);
@@ -186,7 +194,7 @@ pub fn write_file(schema: &Schema, rs: &RSchema, vals: &[Val], ops: &[Op], wc: &
 	if let Err(e) = run() {
 		// in debug builds Drop deliberately panics when the final flush fails again; the failing
 		// call's Result is what is judged, so the writer is not dropped
-		std::mem::forget(w);
+		discard_writer(w);
 		return Err(e);
 	}
 	w.into_inner().map_err(|e| format!("into_inner: {e}"))?;
